@@ -46,22 +46,35 @@ def isAmbient (p : Bytes) : Bool :=
 def FS.kindOf (fs : FS) (p : Bytes) : Option Kind :=
   if isAmbient p then some .dir else fs.lookup p
 
-/-- `os.Stat` -/
+/-- a NUL byte anywhere: refused before any lookup (Go cannot even pass the path to the kernel) -/
+def hasNul (p : Bytes) : Bool := (splitSlash p).any (fun e => e.contains 0)
+
+/-- the last element of a path is longer than a file name may be -/
+def lastTooLong (q : Bytes) : Bool :=
+  match (splitSlash q).getLast? with
+  | some e => e.length > nameMax
+  | none => false
+
+/-- `os.Stat`: the kernel resolves the path element by element, so the leftmost problem decides:
+    a missing element before an over-long one is "does not exist" -/
 def FS.stat (fs : FS) (p : Bytes) : Except FErr Kind :=
-  match pathRefusal p with
-  | some e => .error e
-  | none =>
+  if hasNul p then .error .invalid
+  else
     let pres := prefixesOf p
     -- every proper prefix must be a directory
     let rec go : List Bytes → Except FErr Kind
       | [] => .ok .dir
-      | [q] => match fs.kindOf q with
-        | some k => .ok k
-        | none => .error .notExist
-      | q :: q2 :: qs => match fs.kindOf q with
-        | some .dir => go (q2 :: qs)
-        | some (.file _) => .error .notDir
-        | none => .error .notExist
+      | [q] =>
+        if lastTooLong q then .error .nameTooLong
+        else match fs.kindOf q with
+          | some k => .ok k
+          | none => .error .notExist
+      | q :: q2 :: qs =>
+        if lastTooLong q then .error .nameTooLong
+        else match fs.kindOf q with
+          | some .dir => go (q2 :: qs)
+          | some (.file _) => .error .notDir
+          | none => .error .notExist
     if isAmbient p then .ok .dir else go pres
 
 /-- `os.MkdirAll` -/
